@@ -156,6 +156,8 @@ def main(argv=None):
                                 key=lambda kv: (-kv[1], kv[0]))[:40]),
         'distinct_outcomes': len(merged.outcomes),
         'counters': dict(merged.counters),
+        'maxima': dict(merged.maxima),
+        'slowest_tasks': getattr(merged, 'slowest', []),
         'bounds': getattr(mod, 'BOUNDS', {}).get(args.tier, {}),
         'engine_selftest_replayed_identically': selftest,
         'violations_total_cases': merged.nviolations,
